@@ -1115,10 +1115,11 @@ class Elemwise(Blockwise):
         # Pad index to full length
         full_index = index + (slice(None),) * (len(out_ind) - len(index))
 
-        # Build sliced inputs
+        # Build sliced inputs; array-valued where= and out= are per-element
+        # operands too and are sliced the same way
         new_args = []
-        for arg in self.elemwise_args:
-            if is_scalar_for_elemwise(arg):
+        for arg in (*self.elemwise_args, self.where, self.out):
+            if arg is None or is_scalar_for_elemwise(arg):
                 new_args.append(arg)
             else:
                 # Map output slice to this input's dimensions
@@ -1161,13 +1162,14 @@ class Elemwise(Blockwise):
 
                 sliced_arg = new_collection(arg)[tuple(arg_slices)]
                 new_args.append(sliced_arg.expr)
+        *new_args, new_where, new_out = new_args
 
         return Elemwise(
             self.op,
             self.operand("dtype"),
             self.operand("name"),
-            self.where,
-            self.out,
+            new_where,
+            new_out,
             self.operand("_user_kwargs"),
             *new_args,
         )
